@@ -87,6 +87,7 @@ type envB struct {
 	cands         []candidate
 	closeErrs     []string
 	finished      bool
+	deadCtxCloses int
 }
 
 // diag describes the layout at the instant a disappearance is noticed (message only).
@@ -249,10 +250,19 @@ func (e *envB) observe(i int, what string, tagWritten bool) {
 	}
 	if e.closeAt[k] || (e.c.CloseEvery > 0 && k%e.c.CloseEvery == 0) {
 		hadIndex := e.hasIndex()
-		cerr := e.rc.Close(context.Background(), e.closeRef)
+		ck := 0
+		if n := len(e.c.CloseCtx); n > 0 {
+			ck = e.c.CloseCtx[e.closesInCopy%n]
+		}
+		cctx, ccancel := mkCtx(ck)
+		cerr := e.rc.Close(cctx, e.closeRef)
+		ccancel()
 		after := listDigestFiles(e.tgt)
 		e.closesInCopy++
-		if cerr != nil && hadIndex {
+		if ck%4 != 0 {
+			e.deadCtxCloses++
+		}
+		if cerr != nil && hadIndex && !(ck%4 != 0 && ctxError(cerr)) {
 			e.closeErrs = append(e.closeErrs, cerr.Error())
 		}
 		gone := []string{}
@@ -367,7 +377,15 @@ func checkB(cs Case, ev *evid.Collector) *evid.Violation {
 					// a layout that so far only received blobs (e.g. from a copy that failed) has no index.json; Close fails on
 					// reading it and nothing is asserted about that (see Part A)
 					hadIndex := e.hasIndex()
-					if err := e.rc.Close(ctx, e.closeRef); err != nil && hadIndex {
+					cctx, ccancel := mkCtx(st.Ctx)
+					err := e.rc.Close(cctx, e.closeRef)
+					ccancel()
+					if st.Ctx%4 != 0 {
+						e.mu.Lock()
+						e.deadCtxCloses++
+						e.mu.Unlock()
+					}
+					if err != nil && hadIndex && !(st.Ctx%4 != 0 && ctxError(err)) {
 						e.mu.Lock()
 						e.closeErrs = append(e.closeErrs, err.Error())
 						e.mu.Unlock()
@@ -431,16 +449,20 @@ func checkB(cs Case, ev *evid.Collector) *evid.Violation {
 	if nOK >= 2 {
 		classes = append(classes, "B:>=2-copies-ok")
 	}
+	if e.deadCtxCloses > 0 {
+		classes = append(classes, "B:close-with-dead-context")
+	}
 	nt := e.maxInflight >= 2 && e.closesInCopy > 0
 	key, _ := json.Marshal(struct {
 		W  [][]StepB
 		C  []CopyB
 		E  int
 		A  []int
+		X  []int
 		D  []int
 		P  int
 		Pr string
-	}{c.Workers, c.Copies, c.CloseEvery, c.CloseAt, c.Delays, c.Procs, c.Pre})
+	}{c.Workers, c.Copies, c.CloseEvery, c.CloseAt, c.CloseCtx, c.Delays, c.Procs, c.Pre})
 	ev.Case(nt, g.Shape()+"|"+string(key), classes...)
 	ev.Sample(map[string]any{"part": "B", "shape": g.Shape(), "copies": c.Copies, "workers": c.Workers, "close_every": c.CloseEvery, "ok": nOK, "failed": nFail,
 		"max_inflight": e.maxInflight, "closes_inside_copy": e.closesInCopy, "requests": e.reqs})
